@@ -2124,3 +2124,68 @@ Proof.
     rewrite !Pos2Z.inj_mul, Eb, Ed, Zpos_P53. nia.
 Qed.
 End FloatCompare.
+
+(* ================================================================== *)
+(* Part 8: search(...) with per-call target overrides, on a persisting cache *)
+Local Open Scope Z_scope.
+Lemma cache_ok_overrides fd ots otov otsl ch :
+  cache_ok (with_overrides fd ots otov otsl) ch <-> cache_ok fd ch.
+Proof. unfold cache_ok, entry_ok. cbn [with_overrides f_cost0 f_forbidden]. tauto. Qed.
+
+(* the targets of the CALL: an argument that is given wins over the construction-time one *)
+Definition call_targets_hold (fd : finder) (ots : option Z) (otov : option (Z * Z)) (otsl : option Z)
+    (c : costs) : Prop :=
+  (forall ts, maybe_default (f_tsize fd) ots = Some ts -> size_le c ts = true) /\
+  (forall tv, maybe_default (f_tover fd) otov = Some tv -> over_gt c tv = false) /\
+  (forall tsl, maybe_default (f_tslices fd) otsl = Some tsl -> slices_ge c tsl = true).
+
+Theorem search_call_spec fd ots otov otsl oracles ch ch' k c : cache_ok fd ch ->
+  search_call fd ots otov otsl oracles ch = Ret (ch', (k, c)) ->
+  cache_ok fd ch' /\ entry_ok fd (k, c) /\ call_targets_hold fd ots otov otsl c /\
+  (exists xs, remove_seq xs (f_cost0 fd) = Some c /\ (forall j, In j k <-> In j xs) /\
+              forall j, In j xs -> ~ In j (f_forbidden fd)).
+Proof.
+  intros Hch. unfold search_call. set (fd' := with_overrides fd ots otov otsl).
+  destruct (search_loop fd' oracles ch) as [[ch1 rs]| |] eqn:Es; try discriminate.
+  destruct (best fd' ch1) as [e| |] eqn:Eb; try discriminate. intros [= -> ->].
+  assert (Hch' : cache_ok fd' ch) by (apply cache_ok_overrides, Hch).
+  destruct (search_loop_spec fd' oracles ch ch' rs Hch' Es) as (Hch1 & _).
+  destruct (best_spec fd' ch' (k, c) Eb) as (Hin & Ht & _).
+  assert (Hent : entry_ok fd' (k, c)) by (unfold cache_ok in Hch1; rewrite Forall_forall in Hch1; apply Hch1, Hin).
+  split; [apply (cache_ok_overrides fd ots otov otsl), Hch1|]. split; [exact Hent|]. split; [exact Ht|exact Hent].
+Qed.
+
+(* C07 for a call with overrides on a tree finder, after any earlier calls (any cache_ok cache) *)
+Theorem search_call_prediction_real n sl0 t ao ts tov tsl ots otov otsl oracles ch ch' k c :
+  tree_ok n sl0 t -> sd_pos (szd n) -> NoDup (zd_keys (szd n)) ->
+  let fd := finder_of_tree n sl0 t ao ts tov tsl in
+  cache_ok fd ch ->
+  search_call fd ots otov otsl oracles ch = Ret (ch', (k, c)) ->
+  cache_ok fd ch' /\
+  exists xs, (forall j, In j k <-> In j xs) /\ NoDup xs /\
+    let sl := sl0 ++ slice_all xs in
+    c_nsl c * multiplicity n sl0 = multiplicity n sl /\
+    cc_total_flops c * multiplicity n sl0 = total_flops n sl t /\
+    match cc_size c with Some s => s | None => 0 end = max_size n sl t /\
+    c_orig c = sum_flops n sl0 t /\
+    call_targets_hold fd ots otov otsl c /\
+    (forall j, In j xs -> ~ In j (removed sl0) /\ In j (zd_keys (szd n)) /\
+       (ao = AoFalse -> ~ In j (output n)) /\ (ao = AoOnly -> In j (output n))).
+Proof.
+  intros Hok Hpos HND fd Hch Hs.
+  destruct (search_call_spec fd ots otov otsl oracles ch ch' k c Hch Hs) as (Hch' & _ & Ht & (xs & Hseq & Hk & Hforb)).
+  split; [exact Hch'|].
+  unfold fd in Hseq, Hforb. cbn [f_cost0 finder_of_tree f_forbidden] in Hseq, Hforb.
+  destruct (costs_remove_eq_tree_remove n sl0 t Hok Hpos HND xs c Hseq) as (T & I & N & O & R & ND & Hkeys).
+  destruct (prediction_is_real n sl0 t xs c (fun j => sd_pos_zget _ j Hpos) I T N) as (P1 & P2 & _ & P4).
+  exists xs. split; [exact Hk|]. split; [exact ND|]. cbn zeta.
+  split; [exact P1|]. split; [exact P2|]. split; [exact P4|]. split; [exact O|]. split; [exact Ht|].
+  intros j Hj. split; [apply (removed_never_again n sl0 t Hok Hpos HND xs c Hseq j Hj)|].
+  split; [apply Hkeys, Hj|].
+  assert (Esd : c_sd (costs_of_tree n sl0 t) = szd n).
+  { apply (cc_init_inv (tree_rows n sl0 t) (szd n) (tree_rows_ok n sl0 t Hok) Hpos HND). }
+  split.
+  - intros -> Ho. apply (Hforb j Hj). apply forbidden_false, Ho.
+  - intros ->. destruct (in_dec Nat.eq_dec j (output n)) as [Hin|Hnin]; [exact Hin|].
+    exfalso. apply (Hforb j Hj). apply forbidden_only; [rewrite Esd; apply Hkeys, Hj|exact Hnin].
+Qed.
